@@ -324,6 +324,8 @@ func menuOf1(name string) []spec.Batch {
 		return SynMenu()
 	case "vec":
 		return VecMenu()
+	case "vecbig":
+		return VecBigMenu()
 	}
 	panic("unknown menu " + name)
 }
@@ -348,6 +350,32 @@ func VecMenu() []spec.Batch {
 		{},                     // M5: empty batch
 		VecCase{Docs: []int{1, 3}, Metric: "l2_norm", Two: true}.Batch(), // M6: two vector fields (v in both docs, w in doc 0)
 		wOnly, // M7: only the second vector field w
+	}
+}
+
+// VecLattice: n documents with one 2-dimensional vector each on a 40-wide lattice
+// starting at row y0 (distinct rows -> distinct vectors across menu items).
+func VecLattice(n, y0 int, prefix, metric string) spec.Batch {
+	var b spec.Batch
+	for i := 0; i < n; i++ {
+		x, y := float32(i%40), float32(y0+i/40)
+		b.Docs = append(b.Docs, spec.Doc{ID: fmt.Sprintf("%s%04d", prefix, i), Fields: []spec.Field{
+			{Name: "v", Kind: spec.Vector, Vec: []float32{x, y}, Dims: 2, Sim: metric, Opt: "recall"}}})
+	}
+	return b
+}
+
+// VecBigMenu: segments whose merges put the number of surviving vectors of field v
+// at 999 / 1000 / 1001 / 1002 - around the boundary between the exact and the
+// clustered index class (and of the centroid-count rule that has to agree with it).
+func VecBigMenu() []spec.Batch {
+	two := spec.Batch{Docs: []spec.Doc{{ID: "two", Fields: []spec.Field{
+		{Name: "v", Kind: spec.Vector, Vec: []float32{0.5, 100.5, 1.5, 100.5}, Dims: 2, Sim: "l2_norm", Opt: "recall"}}}}}
+	return []spec.Batch{
+		VecLattice(500, 0, "a", "l2_norm"),   // M0: 500 vectors
+		VecLattice(500, 20, "b", "l2_norm"),  // M1: 500 other vectors
+		VecLattice(1001, 40, "c", "l2_norm"), // M2: 1001 vectors (clustered class on its own)
+		two,                                  // M3: one document with two vectors
 	}
 }
 
